@@ -167,6 +167,16 @@ fn upd(b: &[(Vec<u8>, Vec<u8>)]) -> Vec<(AkdLabel, AkdValue)> {
 
 /// drives the spawned tasks under `schedule`; afterwards everything runs freely to completion
 async fn drive<T: Send + 'static>(ctl: &Arc<Ctl>, handles: &mut Vec<tokio::task::JoinHandle<T>>, schedule: &[usize]) {
+    drive_ex(ctl, handles, schedule, &|_| Box::pin(async {})).await
+}
+
+/// as `drive`; schedule entries that name no task are handed to `other` (an action of the environment, run by the controller)
+async fn drive_ex<T: Send + 'static>(
+    ctl: &Arc<Ctl>,
+    handles: &mut Vec<tokio::task::JoinHandle<T>>,
+    schedule: &[usize],
+    other: &dyn Fn(usize) -> std::pin::Pin<Box<dyn std::future::Future<Output = ()>>>,
+) {
     let spin = |n: usize| async move {
         for _ in 0..n {
             tokio::task::yield_now().await;
@@ -175,7 +185,11 @@ async fn drive<T: Send + 'static>(ctl: &Arc<Ctl>, handles: &mut Vec<tokio::task:
     // let every task reach its first gate (or finish / block)
     spin(20 * handles.len()).await;
     for &t in schedule {
-        if t >= handles.len() || handles[t].is_finished() || !(ctl.waiting[t].load(Ordering::SeqCst) > 0) {
+        if t >= handles.len() {
+            other(t).await;
+            continue;
+        }
+        if handles[t].is_finished() || !(ctl.waiting[t].load(Ordering::SeqCst) > 0) {
             continue;
         }
         ctl.sems[t].add_permits(1);
@@ -980,7 +994,18 @@ async fn proto_case(cx: &mut Cx, d: u8, tasks: &[Vec<(bool, u8, u8)>], sched: &[
     for (ti, t) in tasks.iter().enumerate() {
         full.extend(vec![ti; 2 * t.len() + 1]);
     }
-    drive(&ctl, &mut handles, &full).await;
+    {
+        let m = mgr.clone();
+        drive_ex(&ctl, &mut handles, &full, &move |t| {
+            let m = m.clone();
+            Box::pin(async move {
+                if t == 9 {
+                    m.flush_cache().await;
+                }
+            })
+        })
+        .await;
+    }
     let mut rets = vec![];
     for h in handles {
         match tokio::time::timeout(Duration::from_secs(20), h).await {
@@ -1151,7 +1176,12 @@ pub fn proto(seed: u64, tier: u32) -> Cx {
             }
             let len = r.below(14) as usize;
             let nt = tasks.len() as u64;
-            let sched: Vec<usize> = (0..len).map(|_| r.below(nt) as usize).collect();
+            // (one schedule in three also flushes the cache now and then: entry 9)
+            let flushes = r.chance(1, 3);
+            let sched: Vec<usize> = (0..len).map(|_| if flushes && r.chance(1, 5) { 9 } else { r.below(nt) as usize }).collect();
+            if flushes {
+                cx.stat("proto_schedules_with_flushes");
+            }
             let cp = r.chance(1, 2);
             proto_case(&mut cx, 1 + r.below(3) as u8, &tasks, &sched, cp).await;
             cx.stat(if cp { "proto_parked_before_cache_update" } else { "proto_parked_after_data_layer" });
